@@ -27,8 +27,8 @@ theorem CtlEq.trans {a b c : H2Stream} (h1 : CtlEq a b) (h2 : CtlEq b c) : CtlEq
    h2.readClosed.trans h1.readClosed, h2.readAborted.trans h1.readAborted, h2.connDead.trans h1.connDead,
    h2.isHead.trans h1.isHead, h2.res.trans h1.res, h2.headErr.trans h1.headErr⟩
 
-/-- `s.push p`: DATA payload accepted into the pipe. -/
-def push (s : H2Stream) (p : Bytes) : H2Stream := { s with pipe := { s.pipe with buf := s.pipe.buf ++ p } }
+/-- `pushData s p`: DATA payload accepted into the pipe. -/
+def pushData (s : H2Stream) (p : Bytes) : H2Stream := { s with pipe := { s.pipe with buf := s.pipe.buf ++ p } }
 
 /-- The pipe takes writes. -/
 def Writable (s : H2Stream) : Prop :=
@@ -50,7 +50,7 @@ inductive DataNF (s : H2Stream) (p : Bytes) (es : Bool) : H2Stream → Prop
   | empty : p = [] → ¬(s.readAborted = true ∨ s.connDead = true) → s.readClosed = false → s.pastHeaders = true →
       DataNF s p es (if es then s.endStream else s)
   | accepted : p ≠ [] → ¬(s.readAborted = true ∨ s.connDead = true) → s.readClosed = false → s.pastHeaders = true →
-      Writable s → DataNF s p es (if es then (push s p).endStream else push s p)
+      Writable s → DataNF s p es (if es then (pushData s p).endStream else pushData s p)
 
 theorem processData_nf (s : H2Stream) (p : Bytes) (pad es : Bool) : DataNF s p es (s.processData p pad es) := by
   unfold H2Stream.processData
@@ -73,7 +73,7 @@ theorem processData_nf (s : H2Stream) (p : Bytes) (pad es : Bool) : DataNF s p e
     · simp only [hw]; exact .rejected _ (by simp) h0
     · simp only [hw]
       have := DataNF.accepted (es := es) hpne h0 (by simpa using h1) (by simpa using h2) hwr
-      simpa [push] using this
+      simpa [pushData] using this
   · have hpe : p = [] := List.length_eq_zero_iff.mp (by omega)
     simp only [hp, if_false]
     have := DataNF.empty (s := s) (es := es) hpe h0 (by simpa using h1) (by simpa using h2)
